@@ -723,6 +723,21 @@ async fn run_script_once(cfg: Value, sc: Value, verdict: Vec<String>, tls: Tls, 
     if via == "stream-last" {
         st = st.set_std_stream(connect());
     }
+    let mut _unix_peer = None;
+    if via == "unix" {
+        // a connected Unix-domain stream under an ldap:// / ldaps:// URL: the peer is ready to play the script, the library
+        // must refuse the combination
+        let (a, b2) = std::os::unix::net::UnixStream::pair().unwrap_or_else(|e| infra(&format!("socketpair: {}", e)));
+        b2.set_nonblocking(true).unwrap();
+        a.set_nonblocking(true).unwrap();
+        let peer = tokio::net::UnixStream::from_std(b2).unwrap_or_else(|e| infra(&format!("unix peer: {}", e)));
+        let (tl, lg) = (tls.clone(), log.clone());
+        let bh = Behave { silent: false, ldaps_inject: false, resp: "success".into(), rc: 0, inj: "none".into(), hs: "trusted".into() };
+        _unix_peer = Some(tokio::spawn(async move {
+            let _ = tokio::time::timeout(Duration::from_secs(10), session(peer, bh, tl, "url".into(), "unix".into(), lg, true)).await;
+        }));
+        st = st.set_std_stream(StdStream::Unix(a));
+    }
     let url = format!("{}://{}:{}", if mode == "ldaps" { "ldaps" } else { "ldap" }, if s(&cfg, "host") == "ip" { "127.0.0.1" } else { "localhost" }, l.port);
     let bound = if verdict.iter().any(|v| v == "pending") { pending_ms } else { HANG_MS.max(short_ms + LATE_MS + 500) };
     let o = call_async(st, url.clone(), bound, Some(log.clone())).await;
